@@ -179,6 +179,7 @@ static void history_case(cs::Src& s, cs::Ctx& ctx) {
   if (r.st.container_sets) ctx.label("container-set(JsonArray/JsonObject::set)");
   if (r.st.no_such_key_ops) ctx.label("null-key/non-key-variant-op");
   if (r.st.assign_ops) ctx.label("operator=-write");
+  if (r.st.iterator_handles) ctx.label("reference-obtained-through-iterator");
   if (r.st.alias_excluded) ctx.label("alias-ops-excluded", r.st.alias_excluded);
   ctx.label("operations", r.st.ops);
   if (ctx.want_sample() && r.st.ops < 40) ctx.sample(r.log);
